@@ -452,6 +452,10 @@ fn job(class: &str, fmt: Fmt, build: &ReqSpec, verify: &ReqSpec, picks: Vec<Pick
 }
 
 /// the honest shapes every family starts from: (name, request, picks, self-attested)
+pub fn shapes_for_parsers() -> Vec<(ReqSpec, Vec<Pick>, Vec<(String, String)>)> {
+    shapes().into_iter().map(|(_, a, b, c)| (a, b, c)).collect()
+}
+
 fn shapes() -> Vec<(&'static str, ReqSpec, Vec<Pick>, Vec<(String, String)>)> {
     vec![
         (
@@ -1180,6 +1184,9 @@ pub fn run(prop: &str, tier: &str, seed: u64, outdir: &str) {
         interval_unit_cases(&mut out, &mut r, thorough);
     }
     let w = World::build(outdir);
+    if prop == "C12" {
+        crate::c12d::run(&mut out, &mut r, &w, thorough);
+    }
     let jobs = match prop {
         "C01" => c01_jobs(&mut r, &w, thorough),
         "C02" => c02_jobs(&mut r, &w, thorough),
